@@ -12,7 +12,7 @@ import os
 import random
 import subprocess
 
-from lib import vf
+from lib import vf, expand
 
 OPTS = {"none": "", "unimock": "mock_api = Mk, unimock", "mockall": "mockall", "ref": "delegate_by = ref", "borrow": "delegate_by = Borrow",
         "static-di": "TrImpl, delegate_by = DelegateTr", "dyn-di": "TrImpl, delegate_by = ref", "async_trait": ""}
@@ -29,7 +29,9 @@ def render(c):
         lines.append("#[allow(dead_code, clippy::needless_lifetimes)]")
     if c["opt"] == "async_trait":
         lines.append("#[::async_trait::async_trait]")
-    head = ("pub " if "pubvis" in cs else "") + ("unsafe " if "unsafe" in cs else "") + "trait Tr"
+    # (a written visibility rotates over pub / pub(crate) / pub(super) / pub(in path))
+    vis = ["pub ", "pub(crate) ", "pub(super) ", "pub(in crate::cases) "][int(c["case"]) % 4] if "pubvis" in cs else ""
+    head = vis + ("unsafe " if "unsafe" in cs else "") + "trait Tr"
     if "generics" in cs:
         g = "G: Clone" if "where" not in cs else "G"
         head += {"type": f"<{g}>", "const-first": f"<const N: usize, {g}>", "lifetime": f"<'t, {g}>", "default": f"<{g} = u8>",
@@ -107,7 +109,8 @@ def main():
         for f in sorted(glob.glob(dump + ".*")):
             with open(f) as fin:
                 o.write(fin.read())
-    by_case, _ = vf.records_by_case(chk, allf)
+    by_case, allrecs = vf.records_by_case(chk, allf)
+    expand.conformance(chk, allrecs, "traits")        # every replayed trait against the pipeline model (spec/Expand.tla)
     events = []
     for c in sel:
         recs = sorted(by_case.get(c["case"], []), key=lambda r: (r["pid"], r["seq"]))
